@@ -45,7 +45,8 @@ func (p *ParserZH) ParseAST(l *syntax.Lexer) (pg *syntax.Program, err error) {
 
 	// ensure there's no remaining token after parsing global block
 	if p.peek().Type != TypeEOF {
-		err = p.getInvalidSyntaxCurr()
+		// either a tree or an error, never a tree of the first part of the text with an error
+		return nil, p.getInvalidSyntaxCurr()
 	}
 	return
 }
